@@ -570,6 +570,9 @@ def ok (t : Trace) : Bool :=
            (if !(seen.any isStopStart) && !(seen.any isPanicEv) &&
                !(seen.any (fun | .startEnd .err => true | _ => false)) then b == true else true)
          else true
+       -- upgrade() returns a reference exactly while some strong reference exists: it cannot fail while
+       -- the script itself still holds a strong handle (whether or not the actor has ended)
+       | .upgradeFailed _ => (C07.strongHandlesAfter seen).isEmpty
        | _ => true) && go (seen ++ [e]) es
   go [] t.ev
 end C11
